@@ -248,6 +248,20 @@ fn case_json(c: &Case) -> Value {
 // ------------------------------------------------------------------------------------------------
 // observation: render one request natively
 
+/// interned `&'static str`s (lookups only, never iterated): keeps the leak per case small
+static INTERN: Mutex<Option<std::collections::HashMap<String, &'static str>>> = Mutex::new(None);
+
+fn intern(s: &str) -> &'static str {
+    let mut g = INTERN.lock().unwrap();
+    let map = g.get_or_insert_with(Default::default);
+    if let Some(v) = map.get(s) {
+        return v;
+    }
+    let leaked: &'static str = Box::leak(s.to_string().into_boxed_str());
+    map.insert(s.to_string(), leaked);
+    leaked
+}
+
 fn install_tables(c: &Case) {
     let mut guard = TABLES.lock().unwrap();
     for slot in 0..N_SLOTS {
@@ -255,12 +269,14 @@ fn install_tables(c: &Case) {
     }
     for (slot, strings) in &c.tables {
         // the register context stores `&'static [&'static str]`: leak this case's table
-        let leaked: Vec<&'static str> = strings
-            .iter()
-            .map(|s| &*Box::leak(s.clone().into_boxed_str()))
-            .collect();
+        let leaked: Vec<&'static str> = strings.iter().map(|s| intern(s)).collect();
         guard[*slot] = Box::leak(leaked.into_boxed_slice());
     }
+}
+
+/// no request exists natively: answer the Accept-Language lookup with "absent" (keeps leptos-use quiet)
+fn quiet_header_getter() -> leptos_use::UseLocalesOptions {
+    leptos_use::UseLocalesOptions::default().ssr_lang_header_getter(|| None)
 }
 
 fn render_request(flat: bool, history: Vec<usize>) -> String {
@@ -278,7 +294,7 @@ fn render_request(flat: bool, history: Vec<usize>) -> String {
                 Some(false),
                 None,
                 None,
-                None,
+                Some(quiet_header_getter()),
                 TypedChildren::to_children(children),
             )
             .to_html()
@@ -289,7 +305,7 @@ fn render_request(flat: bool, history: Vec<usize>) -> String {
                 Some(false),
                 None,
                 None,
-                None,
+                Some(quiet_header_getter()),
                 TypedChildren::to_children(children),
             )
             .to_html()
@@ -727,6 +743,18 @@ fn check_case(t: &mut Tape, clause: Clause) -> CaseResult {
     })
 }
 
+struct DropExecutor;
+
+impl any_spawner::CustomExecutor for DropExecutor {
+    fn spawn(&self, fut: any_spawner::PinnedFuture<()>) {
+        drop(fut)
+    }
+    fn spawn_local(&self, fut: any_spawner::PinnedLocalFuture<()>) {
+        drop(fut)
+    }
+    fn poll_local(&self) {}
+}
+
 const ENGINES: [(&str, Clause); 3] = [
     ("l0dyn-breakout", Clause::Breakout),
     ("l0dyn-parse", Clause::Parse),
@@ -734,7 +762,9 @@ const ENGINES: [(&str, Clause); 3] = [
 ];
 
 pub fn run(mut ctx: Ctx) -> ! {
-    let _ = any_spawner::Executor::init_futures_executor();
+    // effects are never needed for a synchronous `to_html()`: spawned tasks are dropped, so no
+    // background thread touches disposed owners and the run stays deterministic
+    let _ = any_spawner::Executor::init_custom_executor(DropExecutor);
     // sanity of the harness itself (exit 2, never a violation)
     self_test(&mut ctx);
     if let Some(path) = ctx.replay.clone() {
@@ -746,7 +776,7 @@ pub fn run(mut ctx: Ctx) -> ! {
             None => ctx.harness_error(format!("replay file names unknown engine {engine:?}")),
         }
     } else {
-        let cases = ctx.tier.scale(4000, 120_000);
+        let cases = ctx.tier.scale(30_000, 250_000);
         for (name, clause) in ENGINES {
             ctx.run_tapes(name, cases, 400, |t| check_case(t, clause));
         }
@@ -775,18 +805,22 @@ pub fn run(mut ctx: Ctx) -> ! {
 /// hand-written inputs before trusting them
 fn self_test(ctx: &mut Ctx) {
     let good = [
-        (r#"window.__LEPTOS_I18N_TRANSLATIONS = [];"#, 0usize),
-        (r#"window.__LEPTOS_I18N_TRANSLATIONS = [{"locale":"en","id":null,"values":[]}];"#, 1),
-        (r#"window.__LEPTOS_I18N_TRANSLATIONS = [{"locale":"en","id":"ns1","values":["a\"b\\c\n<\/script> 😀\x41\u{1F600}"]}];"#, 1),
+        ("window.__LEPTOS_I18N_TRANSLATIONS = [];".to_string(), 0usize),
+        ("window.__LEPTOS_I18N_TRANSLATIONS = [{\"locale\":\"en\",\"id\":null,\"values\":[]}];".to_string(), 1),
+        (
+            "window.__LEPTOS_I18N_TRANSLATIONS = [{\"locale\":\"en\",\"id\":\"ns1\",\"values\":[\"a\\\"b\\\\c\\n<\\/script>\u{2028}\u{1F600}\\x41\\u{1F600}\\uD83D\\uDE00\"]}];"
+                .to_string(),
+            1,
+        ),
     ];
-    for (src, n) in good {
+    for (src, n) in &good {
         match parse_script(src).and_then(|v| decode(&v)) {
-            Ok(d) if d.len() == n => {}
+            Ok(d) if d.len() == *n => {}
             other => ctx.harness_error(format!("self-test: {src:?} -> {other:?}")),
         }
     }
-    let d = parse_script(good[2].0).and_then(|v| decode(&v)).unwrap_or_default();
-    let want = "a\"b\\c\n</script> 😀A😀".to_string();
+    let d = parse_script(&good[2].0).and_then(|v| decode(&v)).unwrap_or_default();
+    let want = "a\"b\\c\n</script>\u{2028}\u{1F600}A\u{1F600}\u{1F600}".to_string();
     if d.get(&("en".to_string(), Some("ns1".to_string()))) != Some(&vec![want]) {
         ctx.harness_error(format!("self-test: escapes decoded wrongly: {d:?}"));
     }
